@@ -12,8 +12,10 @@ from harness.common import ImplRaised, drv, impl, run_check
 
 PID = "C02"
 THEOREMS = ["rlencodeChunked_eq", "runStartsFrom_append", "fillIdx_spec", "indexPixels_spec", "indexPixels_chunked_spec",
-            "writePixels_concat", "create_valid", "create_zero_chunks", "countIndex_eq_csrIndex", "merge_valid", "unordered_valid", "fillIdx_segs", "indexFromRle_of_segs", "indexFromRle_of_runs"]
-LEVELS = {"history": "top", "rlencode": "unit", "index": "unit", "bigindex": "top", "cli_load": "top"}
+            "writePixels_concat", "create_valid", "create_zero_chunks", "countIndex_eq_csrIndex", "merge_valid", "unordered_valid", "fillIdx_segs", "indexFromRle_of_segs", "indexFromRle_of_runs",
+            "sortedChunks_flatten_strict", "create_sortedChunks_valid", "create_ensureSorted_valid", "linKey_lt_iff",
+            "linKey_int32_witness", "linKey32_exact"]
+LEVELS = {"history": "top", "rlencode": "unit", "index": "unit", "bigindex": "top", "cli_load": "top", "bigtable": "top"}
 DESCRIBE = {
     "history": "a seeded history of producing operations (create ordered/unordered, merge, coarsen, zoomify, legacy quad-tree zoomify, scool, append to one file); "
                "EVERY collection of EVERY file written is dumped raw with h5py and judged by Lean `schemaViolations` "
@@ -24,10 +26,18 @@ DESCRIBE = {
     "index": "cooler.create._create.index_pixels on a dict-backed group vs Lean `indexPixels` (= `countIndex` by indexPixels_spec)",
     "bigindex": "end-to-end creation with > 10^6 pixels so that index_pixels crosses its literal 1 000 000-row block; raw offsets vs numpy bincount reference evaluated... by Lean on a sampled set of rows",
     "cli_load": "`cooler load` / `cooler cload pairs` outputs judged by the raw monitor",
+    "bigtable": "bin tables of 33 000 - 70 000 bins (fixed / variable width, 1-3 chromosomes, both storage modes) with a few dozen pixels whose "
+                "row and column ids sit on the marks where an id or a product id x nbins crosses 2^8 / 2^15 / 2^16 / 2^31 / 2^32 (and at both "
+                "ends of the table); the id arrays are GIVEN in every integer dtype that holds them (int16 ... uint64, the two columns "
+                "independently, frames and dicts); written through every producing path (one table, ordered stream, ensure_sorted with "
+                "chunks shuffled inside, cooler.create.create, unordered ingestion with and without ensure_sorted, single-cell file, "
+                "`cooler load`), id columns STORED as int64 (default) / int32 / uint32, then merged / coarsened / zoomified (which read the "
+                "ids back in the stored dtype); EVERY collection judged by Lean `schemaViolations` on the raw dump",
 }
 RULE = ("histories: 3-6 producing operations chained on small coolers (n<=8 bins, 1-3 chromosomes, fixed and variable width, both "
         "storage modes), chunk/buffer sizes 1..nnz+1 drawn per step; rlencode: ALL non-decreasing arrays of length <=6 (quick) / <=7 "
-        "(thorough) over 4 values x all chunk sizes 1..len+1, plus unsorted and long random arrays; non-trivial = history writing "
+        "(thorough) over 4 values x all chunk sizes 1..len+1, plus unsorted and long random arrays; bigtable: 7 fixed + 4 (40) seeded "
+        "tables of 32 769..70 000 bins x id dtype pair x stored id dtype x producing paths x follow-up producers; non-trivial = history writing "
         ">=2 collections or array with >=2 runs; distinct by canonical JSON")
 EXHAUSTIVE = {"quick": False, "thorough": False}
 TRUSTED = ["h5py reads of raw datasets/attributes", "HDF5 filters are value-transparent",
@@ -415,10 +425,10 @@ def _bigindex(case):
         if case.get("bigrow"):
             # ONE row fills a whole literal block: row 0 holds 10^6 pixels, row 1 starts exactly at offset 10^6 and holds
             # 10^6 pixels (the second block consists of a single run), then two short rows and the last row
-            n = 1_000_003
-            bdf = pd.DataFrame({"chrom": ["c1"] * n, "start": np.arange(n, dtype=np.int64), "end": np.arange(n, dtype=np.int64) + 1})
             M = 1_000_000
             k = case.get("shift", 0)            # row 1 starts at offset 10^6 + shift
+            n = 1_000_003 + k                   # row 0 holds columns 0 .. 10^6 + shift - 1: the table must have them
+            bdf = pd.DataFrame({"chrom": ["c1"] * n, "start": np.arange(n, dtype=np.int64), "end": np.arange(n, dtype=np.int64) + 1})
             b1 = np.concatenate([np.zeros(M + k, dtype=np.int64), np.ones(M, dtype=np.int64), np.full(2, 2), np.full(1, n - 1)])
             b2 = np.concatenate([np.arange(M + k), np.arange(1, M + 1), np.array([2, 5]), np.array([n - 1])]).astype(np.int64)
             df = pd.DataFrame({"bin1_id": b1, "bin2_id": b2, "count": np.ones(len(b1), dtype=np.int32)})
@@ -458,7 +468,272 @@ def _bigindex(case):
             os.unlink(p)
 
 
-CHECKS = {"history": _history, "rlencode": _rlencode, "index": _index, "bigindex": _bigindex, "cli_load": _cli_load}
+# ------------------------------------------------------------------------------------------------------------------
+# big bin tables: ids (and products of ids with the number of bins) beyond the 16/31/32-bit marks, with the id arrays
+# GIVEN in every integer dtype that holds them, through every producing path
+# ------------------------------------------------------------------------------------------------------------------
+
+BIG_ID_DTYPES = ("int64", "int32", "uint32", "uint64", "uint16", "int16")
+BIG_PATHS = ("frame", "frame_ensure", "ordered", "ordered_ensure", "create_ensure", "unordered", "unordered_ensure", "scool_ensure", "cli_load")
+BIG_STORED = (None, None, "int32", "uint32")     # dtype of the STORED id columns (`dtypes=`): what merge / coarsen / zoomify read back
+BIG_FOLLOW = ("merge", "coarsen", "zoomify")
+
+
+def big_landmarks(n):
+    """bin ids of an n-bin table at which an id, or a product id * n (a linearised (row, column) key), crosses a
+    machine-integer mark (2^8, 2^15, 2^16, 2^31, 2^32), plus both ends of the table"""
+    marks = {0, 1, 2, 255, 256, 2 ** 15 - 1, 2 ** 15, 46340, 46341, 2 ** 16 - 1, 2 ** 16, n // 2, n - 2, n - 1}
+    for bits in (15, 16, 31, 32):
+        q = 2 ** bits // n
+        marks |= {q - 1, q, q + 1}
+    return sorted(m for m in marks if 0 <= m < n)
+
+
+def big_pixels(rng, n, symm, cap1, cap2, npx):
+    """a few dozen pixels of an n-bin matrix, sorted by (row, column), keys distinct; rows/columns drawn from the landmarks
+    and at random, rows <= cap1 and columns <= cap2 (what the dtypes the ids are given in can hold)"""
+    hi1, hi2 = min(n - 1, cap1), min(n - 1, cap2)
+    if symm:
+        hi1 = min(hi1, hi2)
+    marks = big_landmarks(n)
+    r_marks = [m for m in marks if m <= hi1]
+    c_marks = [m for m in marks if m <= hi2]
+    keys = set()
+    # always one pixel in the last admissible row and several rows on either side of every mark
+    rows = {hi1, r_marks[0]}
+    while len(rows) < max(3, npx // 3):
+        rows.add(rng.choice(r_marks) if rng.random() < 0.6 else rng.randint(0, hi1))
+    for i in sorted(rows):
+        lo = i if symm else 0
+        for _ in range(rng.randint(1, 4)):
+            cand = [m for m in c_marks if m >= lo]
+            j = rng.choice(cand) if cand and rng.random() < 0.6 else rng.randint(lo, hi2)
+            keys.add((i, j))
+    keys = sorted(keys)
+    while len(keys) > npx:
+        keys.pop(rng.randrange(len(keys)))
+    return [[i, j, 1 + (k * 7) % 23] for k, (i, j) in enumerate(keys)]
+
+
+def big_bins(rng, n, nchroms, var):
+    """n bins over `nchroms` chromosomes: fixed width (short last bin) or variable widths"""
+    cuts = sorted(rng.sample(range(1, n), nchroms - 1)) if nchroms > 1 else []
+    layout = [b - a for a, b in zip([0] + cuts, cuts + [n])]
+    w = rng.choice([1, 2, 10, 1000])
+    chrom, start, end = [], [], []
+    for c, k in enumerate(layout):
+        if var:
+            ws = np.array([rng.randint(1, 9) for _ in range(k)], dtype=np.int64)
+        else:
+            ws = np.full(k, w, dtype=np.int64)
+            if w > 1:
+                ws[-1] = rng.randint(1, w)
+        e = np.cumsum(ws)
+        chrom += [gen.chromname(c)] * k
+        start.append(e - ws)
+        end.append(e)
+    names = [gen.chromname(c) for c in range(nchroms)]
+    df = pd.DataFrame({"chrom": pd.Categorical(chrom, categories=names, ordered=True),
+                       "start": np.concatenate(start), "end": np.concatenate(end)})
+    return df, (None if var else w)
+
+
+def _big_chunk(recs, dt1, dt2, form, key):
+    d = {"bin1_id": np.array([r[0] for r in recs], dtype=dt1), "bin2_id": np.array([r[1] for r in recs], dtype=dt2),
+         "count": np.array([r[2] for r in recs], dtype=np.int32)}
+    if form == "dict":
+        return d
+    return gen.relabel_rows(pd.DataFrame(d), key + len(recs), groups=[r[0] for r in recs])
+
+
+def _big_report(path, group, label, trail):
+    v = monitor.violations(path, group)
+    if not v:
+        return None
+    d, _ = monitor.dump_raw(path, group)
+    off = d["bin1_offset"]
+    steps = [[k, off[k]] for k in range(len(off)) if k == 0 or off[k] != off[k - 1]]
+    return {"mismatch": True, "after": label, "group": group, "violated": v, "history": trail,
+            "raw": {"pixels": d["pixels"][:200], "bin1_offset_steps": steps[:200], "nnz": d["nnz"], "len1": d["len1"],
+                    "len2": d["len2"], "lenv": d["lenv"], "sum": d["sum"], "nbins": d["nbins"]}}
+
+
+def _bigtable(case):
+    """one big bin table, one small pixel set whose ids sit on the machine-integer marks, id arrays given in the case's
+    dtypes: written through every producing path of the case, every collection judged by the raw monitor; then merge /
+    coarsen / zoomify of what was written"""
+    import random
+    from cooler.create import create as create_low
+    from cooler.fileops import list_coolers, list_scool_cells
+    rng = random.Random(case["seed"])
+    n, symm = case["nbins"], case["symm"]
+    dt1, dt2 = case["id_dtypes"]
+    form = case["form"]
+    d = gen.tmpdir()
+    files = []
+
+    def newfile(ext=".cool"):
+        p = os.path.join(d, f"bt-{os.getpid()}-{len(files)}{ext}")
+        if os.path.exists(p):
+            os.unlink(p)
+        files.append(p)
+        return p
+
+    try:
+        bdf, w = big_bins(rng, n, case["nchroms"], case["var"])
+        px = big_pixels(rng, n, symm, int(np.iinfo(dt1).max), int(np.iinfo(dt2).max), case["npx"])
+        stored = case.get("stored")
+        kw = {"dtypes": {"bin1_id": stored, "bin2_id": stored}} if stored else {}
+        written = []
+        for path in case["paths"]:
+            prng = random.Random(f"{case['seed']}-{path}")
+            ensure = path.endswith("_ensure")
+            key = prng.randrange(6)
+
+            def mk(recs):
+                return _big_chunk(recs, dt1, dt2, form, key)
+
+            def cut(recs, k):
+                cs = sorted(prng.randint(0, len(recs)) for _ in range(k))
+                return [list(recs[a:b]) for a, b in zip([0] + cs, cs + [len(recs)])]
+
+            trail = [["table", n, "bins", case["nchroms"], "chromosomes", "variable" if case["var"] else f"width {w}",
+                      "symmetric-upper" if symm else "square"], ["id dtypes", dt1, dt2, form]]
+            if path in ("frame", "frame_ensure"):
+                # ONE table, sorted as documented
+                p = newfile()
+                trail.append([f"create_cooler(one {form}, ensure_sorted={ensure})", px])
+                impl(cooler.create_cooler, p, bdf, mk(px), symmetric_upper=symm, ensure_sorted=ensure, **kw)
+            elif path in ("ordered", "ordered_ensure", "create_ensure"):
+                # an ordered stream: the chunks follow one another in key order; with ensure_sorted each is shuffled inside
+                chunks = cut(px, prng.randint(0, 3))
+                if ensure:
+                    for c in chunks:
+                        prng.shuffle(c)
+                p = newfile()
+                if path == "create_ensure":
+                    trail.append(["cooler.create.create(chunks, ensure_sorted=True)", chunks])
+                    impl(create_low, p, bdf, (mk(c) for c in chunks), symmetric_upper=symm, ensure_sorted=True,
+                         triucheck=symm, **kw)
+                else:
+                    trail.append([f"create_cooler(chunks, ordered=True, ensure_sorted={ensure})", chunks])
+                    impl(cooler.create_cooler, p, bdf, (mk(c) for c in chunks), symmetric_upper=symm, ordered=True,
+                         ensure_sorted=ensure, **kw)
+            elif path in ("unordered", "unordered_ensure"):
+                # any records in any chunk (a pixel may recur in ANOTHER chunk: summed); sorted inside unless ensure_sorted
+                recs = list(px) + [list(r) for r in prng.sample(px, min(len(px), 3))]
+                prng.shuffle(recs)
+                k = prng.randint(1, 4)
+                chunks = [self_merge(recs[i::k]) for i in range(k)]
+                if ensure:
+                    for c in chunks:
+                        prng.shuffle(c)
+                # buffer of the merge pass: a few records (an epoch = one row or less) on one of the two unordered paths, everything
+                # in ONE epoch (rows from both ends of the table side by side) on the other
+                whole = (random.Random(f"{case['seed']}-mergebuf").random() < 0.5) == ensure
+                mb = 20_000_000 if whole else prng.choice([1, 3, 7])
+                mm = prng.choice([2, 200])
+                p = newfile()
+                trail.append([f"create_cooler(chunks, ordered=False, ensure_sorted={ensure}, mergebuf={mb}, max_merge={mm})", chunks])
+                impl(cooler.create_cooler, p, bdf, (mk(c) for c in chunks), symmetric_upper=symm, ordered=False,
+                     ensure_sorted=ensure, mergebuf=mb, max_merge=mm, **kw)
+            elif path == "scool_ensure":
+                cells = {}
+                for name in ("a", "b"):
+                    chunks = cut(px[::2] if name == "a" else px, prng.randint(0, 2))
+                    for c in chunks:
+                        prng.shuffle(c)
+                    cells[name] = chunks
+                p = newfile(".scool")
+                trail.append(["create_scool(cells of chunks, ensure_sorted=True)", cells])
+                impl(cooler.create_scool, p, bdf, {k: (mk(c) for c in v) for k, v in cells.items()}, symmetric_upper=symm,
+                     ensure_sorted=True, **kw)
+                for cell in impl(list_scool_cells, p):
+                    r = _big_report(p, cell, path, trail)
+                    if r:
+                        return r
+                continue
+            elif path == "cli_load":
+                # text loading (`cooler load -f coo`): records in any order, bin table given as a BED file; the stored id
+                # dtype is requested with `--field bin1_id:dtype=...`
+                from click.testing import CliRunner
+                from cooler.cli import cli
+                bed, txt, p = newfile(".bed"), newfile(".txt"), newfile()
+                bdf.to_csv(bed, sep="\t", header=False, index=False)
+                recs = list(px)
+                prng.shuffle(recs)
+                with open(txt, "w") as f:
+                    for i, j, v in recs:
+                        f.write(f"{i}\t{j}\t{v}\n")
+                args = ["load", "-f", "coo", "--chunksize", str(prng.randint(3, len(recs) + 1)), "--mergebuf", str(prng.choice([2, 5, 1000]))]
+                args += [] if symm else ["--no-symmetric-upper"]
+                # (naming any field drops the implicit count column: it is named too)
+                args += ["--field", "count=3", "--field", f"bin1_id:dtype={stored}", "--field", f"bin2_id:dtype={stored}"] if stored else []
+                trail.append(["cooler " + " ".join(args) + " <bins.bed> <pixels.txt> <out>", recs])
+                res = CliRunner().invoke(cli, args + [bed, txt, p])
+                if res.exit_code != 0:
+                    return {"mismatch": True, "after": path, "exit": res.exit_code, "exception": repr(res.exception)[:300], "history": trail}
+            else:
+                raise AssertionError(path)
+            groups = impl(list_coolers, p)
+            if groups != ["/"]:
+                return {"mismatch": True, "after": path, "note": "operation did not produce exactly the root collection", "history": trail}
+            r = _big_report(p, "/", path, trail)
+            if r:
+                return r
+            written.append((p, trail))
+        # producers that READ what was written (ids come back in the stored dtype)
+        for op in case.get("follow", []):
+            if not written:
+                break
+            prng = random.Random(f"{case['seed']}-{op}")
+            src, trail = written[prng.randrange(len(written))]
+            trail = list(trail)
+            if op == "merge":
+                # twice: epochs of a few records, and everything in one epoch
+                other = written[prng.randrange(len(written))][0]
+                for mb in (prng.choice([1, 2, 5]), 20_000_000):
+                    q = newfile()
+                    tr = trail + [["merge_coolers with another of the files written", f"mergebuf={mb}"]]
+                    impl(cooler.merge_coolers, q, [src, other], mergebuf=mb)
+                    r = _big_report(q, "/", op, tr)
+                    if r:
+                        return r
+                continue
+            elif op == "coarsen":
+                # twice: chunks of a few pixels, and the whole table in one chunk
+                k = prng.choice([2, 3, 7, 1000])
+                for cs in (prng.choice([1, 4]), 20_000_000):
+                    q = newfile()
+                    tr = trail + [["coarsen_cooler", f"factor={k}", f"chunksize={cs}"]]
+                    impl(cooler.coarsen_cooler, src, q, k, cs, **kw)
+                    r = _big_report(q, "/", op, tr)
+                    if r:
+                        return r
+                continue
+            elif op == "zoomify":
+                if w is None:
+                    continue
+                q = newfile(".mcool")
+                res = [w * 2, w * 4]
+                cs = prng.choice([1, 4, 20_000_000])
+                trail.append(["zoomify_cooler", res, f"chunksize={cs}"])
+                impl(cooler.zoomify_cooler, src, q, res, cs)
+            else:
+                raise AssertionError(op)
+            for g in impl(list_coolers, q):
+                r = _big_report(q, g, op, trail)
+                if r:
+                    return r
+        return {"stats": {"collections": len(files)}}
+    finally:
+        for p in files:
+            if os.path.exists(p):
+                os.unlink(p)
+
+
+CHECKS = {"history": _history, "rlencode": _rlencode, "index": _index, "bigindex": _bigindex, "cli_load": _cli_load,
+          "bigtable": _bigtable}
 
 
 def nontrivial(name, case):
@@ -466,12 +741,18 @@ def nontrivial(name, case):
         return case["steps"] >= 2
     if name in ("rlencode", "index"):
         return len(set(case["xs"])) >= 2
+    if name == "bigtable":
+        return case["npx"] >= 2 and len(case["paths"]) >= 1
     return True
 
 
 def distribution(name, case):
     if name == "history":
         yield f"history.symm={case['symm']}.var={case['var']}"
+    if name == "bigtable":
+        yield f"bigtable.ids={case['id_dtypes'][0]}/{case['id_dtypes'][1]}.stored={case.get('stored')}"
+        for p in case["paths"]:
+            yield f"bigtable.path={p}"
 
 
 def nondecreasing(length, nvals):
@@ -479,6 +760,19 @@ def nondecreasing(length, nvals):
 
 
 def cases(tier, rng):
+    """the heavy cases (big tables, > 10^6 pixels) are handed to the pool first, each next to a light one (the pool takes the
+    cases in pairs), so that they run side by side instead of forming the tail of the run"""
+    items = list(_cases(tier, rng))
+    heavy = [it for it in items if it[0] in ("bigtable", "bigindex")]
+    light = [it for it in items if it[0] not in ("bigtable", "bigindex")]
+    for k, it in enumerate(heavy):
+        yield it
+        if k < len(light):
+            yield light[k]
+    yield from light[len(heavy):]
+
+
+def _cases(tier, rng):
     thorough = tier == "thorough"
     # corpus (minimised witnesses of seeded changes C02-1..3 first)
     yield "rlencode", {"xs": [0, 0, 1, 1, 2, 2], "chunks": [1, 2, 3]}          # a run starting exactly on a block start
@@ -524,6 +818,26 @@ def cases(tier, rng):
     if thorough:
         yield "bigindex", {"n": 0, "bigrow": True, "shift": 1}
         yield "bigindex", {"n": 0, "bigrow": True, "shift": 999_999}
+    # big bin tables x dtype the ids are given in x producing path: a fixed handful covering every dtype with a table size on
+    # which its products overflow, then seeded ones
+    allp, fol = list(BIG_PATHS), list(BIG_FOLLOW)
+    fixed = [(50_000, ("int32", "int32"), True, 1, False, "dict", None), (70_000, ("uint32", "uint32"), True, 2, False, "frame", None),
+             (65_536, ("uint16", "uint16"), True, 1, False, "frame", None), (46_341, ("int32", "int64"), True, 3, False, "dict", "int32"),
+             (66_000, ("uint64", "int32"), False, 2, False, "frame", None), (40_000, ("int16", "uint16"), True, 2, True, "dict", None),
+             (70_000, ("int64", "int64"), True, 3, False, "frame", "uint32")]
+    for k, (n, dts, symm, nch, var, form, stored) in enumerate(fixed):
+        # every path the GIVEN id arrays flow through; text loading (ids parsed, not given) and the follow-up producers (ids
+        # read back in the STORED dtype) in rotation, all of them where the stored dtype is not the default
+        paths = [p for p in allp if p != "cli_load" or stored or thorough or k % 3 == 0]
+        yield "bigtable", {"seed": 100 + k, "nbins": n, "symm": symm, "nchroms": nch, "var": var, "id_dtypes": list(dts), "form": form,
+                           "npx": 30, "paths": paths, "follow": fol if (stored or thorough) else [fol[k % 3]], "stored": stored}
+    for k in range(40 if thorough else 4):
+        n = rng.choice([rng.randint(33_000, 70_000), rng.choice([32_769, 46_340, 46_341, 46_342, 65_535, 65_536, 65_537, 70_000])])
+        yield "bigtable", {"seed": rng.randrange(10 ** 9), "nbins": n, "symm": rng.random() < 0.7, "nchroms": rng.randint(1, 3),
+                           "var": rng.random() < 0.25, "id_dtypes": [rng.choice(BIG_ID_DTYPES), rng.choice(BIG_ID_DTYPES)],
+                           "form": rng.choice(["frame", "dict"]), "npx": rng.randint(12, 48),
+                           "paths": rng.sample(allp, rng.randint(3, len(allp))), "follow": rng.sample(fol, rng.randint(1, 3)),
+                           "stored": rng.choice(BIG_STORED)}
 
 
 def shrink(name, case):
@@ -535,6 +849,21 @@ def shrink(name, case):
     if name == "history" and case["steps"] > 1:
         c = dict(case); c["steps"] = case["steps"] - 1
         yield c
+    if name == "bigtable":
+        if len(case["paths"]) > 1:
+            for p in case["paths"]:
+                c = dict(case); c["paths"] = [p]; c["follow"] = []
+                yield c
+                if case.get("follow"):
+                    c = dict(case); c["paths"] = [p]
+                    yield c
+        if len(case.get("follow", [])) > 1:
+            for f in case["follow"]:
+                c = dict(case); c["follow"] = [f]
+                yield c
+        if case["npx"] > 4:
+            c = dict(case); c["npx"] = case["npx"] // 2
+            yield c
 
 
 def escalate(name, case, rng):
